@@ -43,6 +43,16 @@ def gen_program(rng):
         return start + rng.choice(["", " rest of the line", "x", " ", "  (tail"])
     vals.append("\"%s\"" % "\n".join(hostile_line() for _ in range(rng.randint(2, 5))))
     vals.append("'(1 \"%s\" 2)" % "\n".join(hostile_line() for _ in range(rng.randint(2, 3))))
+    # text outside ASCII (2-, 3- and 4-byte characters) in strings and symbols-as-strings
+    vals += ["\"caf\u00e9 ouvert \u03bb\"", "\"\u65e5\u672c\u8a9e (\U0001F600) \u00fc\"", "(list \"\u00e9\" \"\u20ac\" 1)"]
+    if rng.random() < 0.08:
+        # a file larger than any block size a reader is likely to use, filled with characters of 2-4 bytes (in a string that is defined, and displayed in part)
+        pad = "".join(rng.choice(["\u00e9", "\u00e9", "\u20ac", "\U0001F600", "a", "\u03bb"]) for _ in range(rng.choice([40000, 90000])))
+        forms.append("(define pad \"%s\")" % pad)
+        vals.append("(if (string? pad) 'padded 'no)")
+    if rng.random() < 0.08:
+        # ONE display whose text has a line feed early and thousands of characters after it
+        forms.append("(display (list \"totals per day:\n\" %s))" % " ".join(str(rng.randint(0, 999)) for _ in range(rng.choice([600, 3000]))))
     if use_lib:
         vals += ["lib-value", "(lib-add 1 2)"]
     for _ in range(n):
